@@ -198,11 +198,16 @@ theorem C09_location (s : SendSettings) (req : Req) (cap n : Nat) (url : Url) (h
     (∀ v, resp.headers.get (hName "location") = some v → hop.resolved = none →
       exchange s req cap n url hop = .final .redirectionUrl) ∧
     (∀ v next, resp.headers.get (hName "location") = some v → hop.resolved = some next →
-      exchange s req cap n url hop = .follow next) :=
+      undialable next = none → exchange s req cap n url hop = .follow next) ∧
+    -- a target without host, without known port or with a scheme other than http(s) is unusable too:
+    -- the call ends with the error of the next turn, and nothing further is dialled or written
+    (∀ v next e, resp.headers.get (hName "location") = some v → hop.resolved = some next →
+      undialable next = some e → exchange s req cap n url hop = .final (.err e)) :=
   fun hp hr hf hn =>
     ⟨fun hl => rd_exchange_noLocation hp hf hr hn hl,
      fun _ hl hres => rd_exchange_badLocation hp hf hr hn hl hres,
-     fun _ _ hl hres => rd_exchange_follow hp hf hr hn hl hres⟩
+     fun _ _ hl hres hd => rd_exchange_follow hp hf hr hn hl hres hd,
+     fun _ _ _ hl hres hd => rd_exchange_undialable hp hf hr hn hl hres hd⟩
 
 /-- 301 without `Location`. -/
 example : exchange (rx_settings true 5) rx_req 64 0 rx_a { script := rx_noLocation, resolved := none }
@@ -226,7 +231,13 @@ example : exchange (rx_settings true 5) rx_req 64 0 rx_a
       (by rw [hst]; decide) rfl (by decide)).2.1 _ hl rfl,
     (C09_location (rx_settings true 5) rx_req 64 0 rx_a
       { script := rx_redirect "302 Found" "http://[", resolved := some rx_b } resp hp
-      (by rw [hst]; decide) rfl (by decide)).2.2 _ _ hl rfl⟩
+      (by rw [hst]; decide) rfl (by decide)).2.2.1 _ _ hl rfl (by decide +kernel)⟩
+
+/-- `Location: ftp://files.test/x` resolves, but the client cannot dial it: error, no further hop. -/
+example : undialable { rx_b with scheme := str "ftp", effPort := 21 } = some .invalidBaseUrl ∧
+    undialable { rx_b with scheme := str "mailto", hostKind := 9, effPort := 0 } = some .invalidUrlHost ∧
+    undialable { rx_b with scheme := str "gopher2", effPort := 0 } = some .invalidUrlPort ∧
+    undialable rx_b = none := by decide +kernel
 
 /-- Conversely, a redirect is followed only under exactly these conditions. -/
 theorem C09_follow_only (s : SendSettings) (req : Req) (cap n : Nat) (url : Url) (hop : Hop) (next : Url) :
@@ -234,12 +245,12 @@ theorem C09_follow_only (s : SendSettings) (req : Req) (cap n : Nat) (url : Url)
     ∃ resp v, parseResponse req.methodM s.maxHeaders cap hop.script = .ok resp ∧
       s.followRedirects = true ∧ isRedirectStatus resp.status = true ∧
       n + 1 ≤ s.maxRedirections ∧ resp.headers.get (hName "location") = some v ∧
-      hop.resolved = some next :=
+      hop.resolved = some next ∧ undialable next = none :=
   rd_exchange_follow_inv
 
 example : ∃ resp v, parseResponse .post 100 64 (rx_redirect "302 Found" "http://b/2") = .ok resp ∧
       isRedirectStatus resp.status = true ∧ resp.headers.get (hName "location") = some v := by
-  obtain ⟨resp, v, h1, _, h3, _, h5, _⟩ := C09_follow_only (rx_settings true 5) rx_req 64 0 rx_a
+  obtain ⟨resp, v, h1, _, h3, _, h5, _, _⟩ := C09_follow_only (rx_settings true 5) rx_req 64 0 rx_a
     { script := rx_redirect "302 Found" "http://b/2", resolved := some rx_b } rx_b (by decide +kernel)
   exact ⟨resp, v, h1, h3, h5⟩
 
